@@ -38,7 +38,9 @@ impl AsyncFileSystem for Vfs {
         handle: Option<<Self as FileSystem>::Handle>,
     ) -> Result<(libc::stat64, Duration)> {
         match self.get_real_rootfs(inode)? {
-            (Left(fs), idata) => fs.getattr(ctx, idata.ino(), handle),
+            (Left(fs), idata) => fs
+                .getattr(ctx, idata.ino(), handle)
+                .map(|(attr, duration)| (self.convert_attr(idata, attr), duration)),
             (Right(fs), idata) => fs
                 .async_getattr(ctx, idata.ino(), handle)
                 .await
